@@ -38,7 +38,9 @@ RULE = ("Fresh-process differential: a pool of ~70 value factories (built-ins; s
         "frozenset, dict views, generator; user-defined Mapping, Sequence, both, neither-but-iterable; "
         "PAIRS of distinct classes with the same __name__/__qualname__ in different categories; values of "
         "SHORT-LIVED classes created on the fly (a new class per use, garbage-collected after the "
-        "warm-up step: Mapping, Sequence, namedtuple, dict/str subclass, plain); numpy "
+        "warm-up step: Mapping, Sequence, namedtuple, dict/str subclass, plain); NaN/inf floats alone "
+        "and nested; a Mapping class with instances whose first classification raises; values nested "
+        "hundreds of levels deep (operations on them may end in RecursionError); numpy "
         "0-d/1-d/2-d arrays of int/float/complex/bool/object/str, numpy scalars incl. longdouble, "
         "float64 (a float subclass); Decimal, Fraction, complex). A case = (warm-up: sequence of pool "
         "values, probe value). The probe runs every module-level type resolver, every validator, "
@@ -143,6 +145,28 @@ ListNamedDict = type("list", (dict,), {"__qualname__": "list"})
 DictNamedList = type("dict", (list,), {"__qualname__": "dict"})
 NdarrayNamed = type("ndarray", (list,), {"__qualname__": "ndarray", "__module__": "numpy"})
 
+class Weird(MyMap):
+    """A Mapping whose instances can make the very first classification blow up: reading the
+    __class__ of a 'bad' instance (which isinstance() against an ABC does) raises."""
+
+    def __init__(self, bad=False):
+        super().__init__({"a": 1})
+        object.__setattr__(self, "_bad", bad)
+
+    @property
+    def __class__(self):
+        if object.__getattribute__(self, "_bad"):
+            raise RuntimeError("refusing to be classified")
+        return Weird
+
+
+def _deep(n, bottom):
+    v = bottom
+    for _ in range(n):
+        v = [v]
+    return v
+
+
 def _dyn(kind):
     """A value of a class created right now (and collectable right after): short-lived classes."""
     if kind == "map":
@@ -190,6 +214,11 @@ POOL = [
     ("np_float32", lambda: np.float32(1.5)), ("np_longdouble", lambda: np.longdouble(1.5)),
     ("np_complex128", lambda: np.complex128(1j)), ("np_bool", lambda: np.bool_(True)),
     ("np_str", lambda: np.str_("s")),
+    ("float_nan", lambda: float("nan")), ("float_inf", lambda: float("inf")), ("float_ninf", lambda: float("-inf")),
+    ("list_with_nan", lambda: [0.25, float("nan")]), ("dict_with_inf", lambda: {"a": float("inf")}),
+    ("weird_ok", lambda: Weird(False)), ("weird_bad", lambda: Weird(True)),
+    ("deep_ordereddict", lambda: _deep(400, collections.OrderedDict(a=1))),
+    ("deep_userlist", lambda: _deep(700, collections.UserList([1]))),
     ("dyn_map", lambda: _dyn("map")), ("dyn_seq", lambda: _dyn("seq")), ("dyn_namedtuple", lambda: _dyn("nt")),
     ("dyn_dict", lambda: _dyn("dict")), ("dyn_str", lambda: _dyn("str")), ("dyn_plain", lambda: _dyn("plain")),
     ("nested_list_with_np", lambda: [np.array([1, 2]), {"a": np.int64(1)}]),
@@ -197,6 +226,8 @@ POOL = [
 ]
 NAMES = [n for n, _ in POOL]
 N = len(POOL)
+# used as warm-up only: an instance that sabotages its own classification has no specified outcome
+NO_PROBE = {"weird_bad"}
 
 RESOLVERS = [
     ("sc", sc_mod._sc_resolver), ("collection", sc_mod._collection_resolver),
@@ -435,6 +466,8 @@ def run_shard(spec, seed, tier, active):
         for j, (a, b) in enumerate(pairs):
             if j % spec["of"] != spec["part"]:
                 continue
+            if NAMES[b] in NO_PROBE:
+                continue
             case = {"property": ID, "engine": "zygote", "warm": [NAMES[a]], "probe": NAMES[b]}
             d = run_case(case)
             record(case)
@@ -448,7 +481,7 @@ def run_shard(spec, seed, tier, active):
 
     def one(data):
         draw = data.draw
-        pi = draw(st.integers(0, N - 1))
+        pi = draw(st.integers(0, N - 1).filter(lambda i: NAMES[i] not in NO_PROBE))
         rel = [i for i in range(N) if _related(T[i], T[pi])]
         warm = draw(st.lists(st.one_of(st.sampled_from(rel), st.integers(0, N - 1)), min_size=2, max_size=8))
         case = {"property": ID, "engine": "zygote", "warm": [NAMES[i] for i in warm], "probe": NAMES[pi]}
